@@ -4,7 +4,8 @@ C15 — histogram buckets and summary windows mean what Prometheus says they mea
 Models: `Model/Histogram.lean` (`Histogram::{new, record, record_many}`, `Distribution::record_samples`),
 `Model/DistBuilder.lean` + `Model/Prom.lean` (`set_buckets_for_metric`, `DistributionBuilder::{new, get_distribution,
 get_distribution_type}`, `Matcher`), `Model/Rolling.lean` (`RollingSummary::{new, add, snapshot, count}`, the render path
-of a summary).  Every theorem is for ALL bound lists / sample sequences / batchings / matcher sets / names / bucket
+of a summary), `Model/Quantile.lean` (`Quantile::new`, `parse_quantiles`, `set_quantiles`, the guard of
+`Summary::quantile`, the quantile lines of a rendered summary).  Every theorem is for ALL bound lists / sample sequences / batchings / matcher sets / names / bucket
 counts and durations / non-decreasing timestamp sequences — no bound on any of them.
 
 Outside the model (checked dynamically by harness/src/c15.rs on the real code): the DDSketch is abstracted to the list of
@@ -15,11 +16,12 @@ import MetricsVerif.Proofs.Histogram
 import MetricsVerif.Proofs.DistBuilder
 import MetricsVerif.Proofs.DistExpose
 import MetricsVerif.Proofs.Rolling
+import MetricsVerif.Model.Quantile
 import MetricsVerif.Generated.SourceFacts
 
 namespace MetricsVerif.C15
 open MetricsVerif.Histogram MetricsVerif.Rolling MetricsVerif.Prom MetricsVerif.PromFmt MetricsVerif.DistBuilder
-open MetricsVerif.PromRender
+open MetricsVerif.PromRender MetricsVerif.Quantile
 
 /-! ## (a) buckets -/
 
@@ -775,6 +777,205 @@ theorem src_histogram_statements :
     ∧ Generated.c15_record_samples_summary_arm = "{ for (sample, ts) in samples { hist.add(*sample, *ts); *sum += *sample; } }" := by
   decide
 
+/-! ## (d) the configured quantiles (`metrics-util/src/quantile.rs`, `set_quantiles`, the quantile lines of `render`) -/
+
+/-- **quantile_new_in_unit**: `Quantile::new` maps EVERY f64 — in range, below 0, above 1, ±∞ and NaN — to a value in
+    [0, 1] ("All values are clamped between 0.0 and 1.0"); in particular never to NaN. -/
+theorem quantile_new_in_unit (x : FV) : ∃ n : Int, (Quantile.new x).value = .fin n ∧ 0 ≤ n ∧ n ≤ 1024 := by
+  cases x with
+  | nan => exact ⟨0, by decide, by omega, by omega⟩
+  | ninf => exact ⟨0, by decide, by omega, by omega⟩
+  | pinf => exact ⟨1024, by decide, by omega, by omega⟩
+  | fin n =>
+    by_cases h0 : n ≤ 0
+    · refine ⟨0, ?_, by omega, by omega⟩
+      simp [Quantile.new, fmax, fmin, qZero, qOne, FV.isNan, FV.le, h0]
+    · by_cases h1 : n ≤ 1024
+      · refine ⟨n, ?_, by omega, h1⟩
+        simp [Quantile.new, fmax, fmin, qZero, qOne, FV.isNan, FV.le, h0, h1]
+      · refine ⟨1024, ?_, by omega, by omega⟩
+        simp [Quantile.new, fmax, fmin, qZero, qOne, FV.isNan, FV.le, h0, h1]
+
+/-- a value that already is in [0, 1] is kept as it is -/
+theorem quantile_new_fixes_unit (n : Int) (h0 : 0 ≤ n) (h1 : n ≤ 1024) : (Quantile.new (.fin n)).value = .fin n := by
+  by_cases h : n ≤ 0
+  · have : n = 0 := by omega
+    subst this; decide
+  · simp [Quantile.new, fmax, fmin, qZero, qOne, FV.isNan, FV.le, h, h1]
+
+/-- what the clamp does outside the range: NaN, -∞ and everything below 0 become 0.0 (label `min`), +∞ and everything
+    above 1 become 1.0 (label `max`) -/
+theorem quantile_new_outside :
+    Quantile.new .nan = ⟨.fin 0, .min⟩ ∧ Quantile.new .ninf = ⟨.fin 0, .min⟩ ∧ Quantile.new .pinf = ⟨.fin 1024, .max⟩
+    ∧ (∀ n : Int, n ≤ 0 → Quantile.new (.fin n) = ⟨.fin 0, .min⟩)
+    ∧ (∀ n : Int, 1024 ≤ n → Quantile.new (.fin n) = ⟨.fin 1024, .max⟩) := by
+  refine ⟨by decide, by decide, by decide, ?_, ?_⟩
+  · intro n h
+    simp [Quantile.new, fmax, fmin, qZero, qOne, FV.isNan, FV.le, h]
+  · intro n h
+    by_cases h0 : n ≤ 0
+    · omega
+    · by_cases h1 : n ≤ 1024
+      · have : n = 1024 := by omega
+        subst this; decide
+      · simp [Quantile.new, fmax, fmin, qZero, qOne, FV.isNan, FV.le, h0, h1]
+
+/-- the label is `min` exactly for the value 0.0 and `max` exactly for 1.0 -/
+theorem quantile_new_label (x : FV) :
+    ((Quantile.new x).label = .min ↔ (Quantile.new x).value = .fin 0)
+    ∧ ((Quantile.new x).label = .max ↔ (Quantile.new x).value = .fin 1024) := by
+  have hv : (Quantile.new x).label =
+      if (Quantile.new x).value = qZero then Label.min else if (Quantile.new x).value = qOne then Label.max else Label.p := rfl
+  rw [hv]
+  by_cases a : (Quantile.new x).value = qZero
+  · simp only [a, if_true]; simp [qZero]
+  · by_cases b : (Quantile.new x).value = qOne
+    · simp only [b, if_true]; simp [qOne, qZero]
+    · simp only [a, b, if_false]
+      simp only [qZero, qOne] at a b
+      simp [a, b]
+
+/-- `parse_quantiles` (and `set_quantiles`, which stores its result): one `Quantile` per configured value, in the
+    configured order, each clamped; `set_quantiles` refuses exactly the empty slice -/
+theorem parse_quantiles_clamps (cfg : List FV) :
+    (parseQuantiles cfg).length = cfg.length
+    ∧ (parseQuantiles cfg).map (·.value) = cfg.map (fun x => (Quantile.new x).value)
+    ∧ (∀ q ∈ parseQuantiles cfg, ∃ n : Int, q.value = .fin n ∧ 0 ≤ n ∧ n ≤ 1024)
+    ∧ (setQuantiles cfg = none ↔ cfg = [])
+    ∧ (∀ l, setQuantiles cfg = some l → l = parseQuantiles cfg) := by
+  refine ⟨by simp [parseQuantiles], by simp [parseQuantiles], ?_, ?_, ?_⟩
+  · intro q hq
+    obtain ⟨x, _, rfl⟩ := List.mem_map.mp hq
+    exact quantile_new_in_unit x
+  · cases cfg <;> simp [setQuantiles]
+  · intro l h
+    cases cfg with
+    | nil => simp [setQuantiles] at h
+    | cons a t => simpa [setQuantiles] using h.symm
+
+/-- what a quantile line may show, given the retained samples `S` of the window: the `0` placeholder only for an empty
+    window; `0.0` only if a sample of the window is in the sketch's zero class; otherwise a sample OF THE WINDOW (the
+    bin of it, within the sketch's relative error, or — for the two ends — the sample itself) -/
+def ShownInWindow (minU : Nat) (S : List FV) : Shown → Prop
+  | .placeholder => S = []
+  | .zeroClass => ∃ v ∈ S, clsOf minU v = .zero
+  | .near v => v ∈ S ∧ clsOf minU v ≠ .zero
+  | .exact v => v ∈ S
+
+/-- a line that satisfies `ShownInWindow` shows the placeholder exactly when the window is empty -/
+theorem shown_placeholder_iff (minU : Nat) (S : List FV) (s : Shown) (h : ShownInWindow minU S s) :
+    s = .placeholder ↔ S = [] := by
+  cases s with
+  | placeholder => simpa [ShownInWindow] using h
+  | zeroClass =>
+    obtain ⟨v, hv, _⟩ := h
+    constructor
+    · intro e; cases e
+    · intro e; rw [e] at hv; cases hv
+  | near v =>
+    constructor
+    · intro e; cases e
+    · intro e; have := h.1; rw [e] at this; cases this
+  | exact v =>
+    constructor
+    · intro e; cases e
+    · intro e; have : v ∈ S := h; rw [e] at this; cases this
+
+/-- **summary_quantile_in_window**: for EVERY rolling summary (finite retained samples: what `Summary::add` lets through,
+    NaN aside), time and quantile value in [0, 1], the value shown lies in the window in the sense of `ShownInWindow`:
+    it is (the bin of) a sample that is inside the rolling window — hence between the smallest and the largest of them —
+    and the `0` placeholder iff the window is empty. -/
+theorem summary_quantile_in_window (minU : Nat) (r : Rolling FV) (now : Nat)
+    (hfin : ∀ x ∈ r.snapshot now, isFin x = true) (n : Int) (h0 : 0 ≤ n) (h1 : n ≤ 1024) :
+    ShownInWindow minU (r.snapshot now) (summaryQuantile minU r now (.fin n)) := by
+  have hunit : inUnit (.fin n) = true := by simp [inUnit, qZero, qOne, FV.le, h0, h1]
+  have hcount : (snapshotSketch minU r now).count = (r.snapshot now).length := (Within.snapshot minU r now).count
+  obtain ⟨e1, _, e3⟩ := quantile_ends_in_window_fixed r now hfin
+  unfold summaryQuantile
+  simp only [hunit, Bool.not_true, Bool.false_eq_true, if_false]
+  by_cases hc : (snapshotSketch minU r now).count = 0
+  · have : ((snapshotSketch minU r now).count == 0) = true := by simp [hc]
+    simp only [this, if_true]
+    rw [hc] at hcount
+    exact List.length_eq_zero_iff.mp hcount.symm
+  · have hb : ((snapshotSketch minU r now).count == 0) = false := by simpa using hc
+    simp only [hb, Bool.false_eq_true, if_false]
+    have hne : r.snapshot now ≠ [] := by
+      intro e; rw [e] at hcount; exact hc (by simpa using hcount)
+    have htot : ((snapshotMinMax true r now).total == 0) = false := by
+      have : (snapshotMinMax true r now).total ≠ 0 := by
+        rw [e1]; intro e; exact hne (List.length_eq_zero_iff.mp e)
+      simpa using this
+    have e3' := e3 hne
+    simp only [renderQ0, renderQ1, htot, Bool.false_eq_true, if_false] at e3'
+    by_cases hz : (FV.fin n) = qZero
+    · simp only [hz, if_true]; exact e3'.1
+    · simp only [hz, if_false]
+      by_cases ho : (FV.fin n) = qOne
+      · simp only [ho, if_true]; exact e3'.2
+      · simp only [ho, if_false]
+        have hnum : n.toNat ≤ 1024 := by omega
+        obtain ⟨q1, q2, q3⟩ := quantile_in_window minU r now n.toNat 1024 hnum
+        cases hq : snapshotQuantile minU r now n.toNat 1024 with
+        | none => exact absurd (q1.mp hq) hne
+        | zero => exact q2 hq
+        | bin v => exact q3 v hq
+
+/-- **configured_quantiles_exposed**: for EVERY list of configured quantiles (any f64s: NaN, ±∞, negative, above 1,
+    repeated), every rolling summary with finite retained samples and every render time: the summary series shows
+    exactly one quantile line per configured value, in the configured order; the value of its `quantile` label is the
+    clamped configured value and lies in [0, 1]; and the value shown lies in the window (`ShownInWindow`): within the
+    sketch's relative error between the smallest and the largest sample of the rolling window, `0` iff it is empty. -/
+theorem configured_quantiles_exposed (minU : Nat) (cfg : List FV) (r : Rolling FV) (now : Nat)
+    (hfin : ∀ x ∈ r.snapshot now, isFin x = true) :
+    (renderQuantiles minU (parseQuantiles cfg) r now).map Prod.fst = cfg.map (fun x => (Quantile.new x).value)
+    ∧ ∀ ln ∈ renderQuantiles minU (parseQuantiles cfg) r now,
+        (∃ n : Int, ln.1 = .fin n ∧ 0 ≤ n ∧ n ≤ 1024)
+        ∧ ShownInWindow minU (r.snapshot now) ln.2
+        ∧ (ln.2 = .placeholder ↔ r.snapshot now = []) := by
+  refine ⟨by simp [renderQuantiles, parseQuantiles, List.map_map, Function.comp_def], ?_⟩
+  intro ln hln
+  simp only [renderQuantiles, parseQuantiles, List.map_map, List.mem_map, Function.comp_def] at hln
+  obtain ⟨x, _, rfl⟩ := hln
+  obtain ⟨n, hn, h0, h1⟩ := quantile_new_in_unit x
+  have hs := summary_quantile_in_window minU r now hfin n h0 h1
+  refine ⟨⟨n, hn, h0, h1⟩, ?_, ?_⟩
+  · simpa [hn] using hs
+  · simp only [hn]; exact shown_placeholder_iff minU _ _ hs
+
+/-- the clamp is what makes the second half true: a quantile value that reached `render` as NaN (what
+    `quantile.clamp(0.0, 1.0)` would hand on) fails the range test of `Summary::quantile` and is shown as the `0`
+    placeholder under the label NaN although the window holds the samples 2.0 and 3.0 — while `Quantile::new(NaN)`
+    shows the window minimum under the label 0.  Likewise a value above 1 that was not clamped. -/
+theorem unclamped_quantile_escapes_window :
+    let r := [(FV.fin 2048, 1), (.fin 3072, 2)].foldl (fun r (a : FV × Nat) => r.add keepFV a.1 a.2) (Rolling.new 2 10)
+    r.snapshot 2 = [.fin 2048, .fin 3072]
+    ∧ renderQuantiles 0 [⟨.nan, .p⟩, ⟨.fin 2048, .p⟩] r 2 = [(.nan, .placeholder), (.fin 2048, .placeholder)]
+    ∧ renderQuantiles 0 (parseQuantiles [.nan, .fin 2048, .fin 512]) r 2
+        = [(.fin 0, .exact (.fin 2048)), (.fin 1024, .exact (.fin 3072)), (.fin 512, .near (.fin 2048))] := by
+  decide
+
+/-- `Quantile::new` clamps with `max(0.0)` then `min(1.0)` (NaN-absorbing, unlike `f64::clamp`), `parse_quantiles` maps
+    it over the slice, `set_quantiles` stores `parse_quantiles(quantiles)`, the defaults go through the same function,
+    and `Summary::quantile` refuses everything outside `0.0..=1.0` as well as an empty sketch -/
+theorem src_quantile_clamp :
+    Generated.c15_quantile_new_clamp = ["quantile.max(0.0)", "clamped.min(1.0)"]
+    ∧ Generated.c15_quantile_new_result = "Quantile(clamped, label)"
+    ∧ Generated.c15_parse_quantiles_body = "{ quantiles.iter().map(|f| Quantile::new(*f)).collect() }"
+    ∧ Generated.c15_set_quantiles_assign = "self.quantiles = parse_quantiles(quantiles)"
+    ∧ Generated.c15_default_quantiles = "parse_quantiles(&[0.0, 0.5, 0.9, 0.95, 0.99, 0.999, 1.0])"
+    ∧ Generated.c15_summary_quantile_guard = "!(0.0..=1.0).contains(&q) || self.count() == 0"
+    ∧ Generated.c15_render_quantile_label = "Some((\"quantile\", quantile.value()))" := by decide
+
+/-- the alignment of a new bucket in `RollingSummary::add` is the integer walk the model's `alignLoop` follows (no
+    floating-point arithmetic on durations: `as_secs_f64`/`mul_f64`/`div_f64` do not occur in `add`) -/
+theorem src_rolling_align :
+    Generated.c15_rolling_add_align
+      = ["if now > reftime {", "begin = reftime + self.bucket_duration;", "let mut end = begin + self.bucket_duration;",
+         "while now < begin || now >= end {", "begin += self.bucket_duration;", "end += self.bucket_duration;", "}",
+         "self.buckets.truncate(self.max_buckets - 1);", "self.buckets.insert(0, Bucket {", "begin, summary });", "}"]
+    ∧ Generated.c15_rolling_add_float_ops = [] := by decide
+
 /-! ## non-vacuity -/
 
 -- (a) duplicates, ±∞ bounds; samples equal to bounds, NaN, ±∞; three batches incl. an empty one
@@ -853,6 +1054,21 @@ example :
     -- magnitudes up to min_possible are zeros: unit 2^-40, 1099 units ≤ 1e-9 < 1100 units
     ∧ (bucketSketch 1099 [.fin 1099, .fin 1100, .fin (-1100), .fin (-5)]).atRank 1 = .zero
     ∧ (bucketSketch 1099 [.fin 1099, .fin 1100, .fin (-1100), .fin (-5)]).atRank 3 = .bin (.fin 1100) := by decide
+
+-- (d) configured quantiles NaN, -∞, -1/4, 1/2, 5/4, +∞ on a window {2.0, 3.0, 5.0} of 2 buckets of 10 whose oldest sample
+-- (1.0 at t = 1) has expired: labels 0 0 0 0.5 1 1; the ends show the window's min/max, the median its middle sample;
+-- once everything has expired every line shows the placeholder
+example :
+    let r := [(FV.fin 1024, 1), (.fin 5120, 12), (.fin 2048, 13), (.fin 3072, 21)].foldl
+      (fun r (a : FV × Nat) => r.add keepFV a.1 a.2) (Rolling.new 2 10)
+    let qs := parseQuantiles [.nan, .ninf, .fin (-256), .fin 512, .fin 1280, .pinf]
+    qs.map (·.label) = [.min, .min, .min, .p, .max, .max]
+    ∧ r.snapshot 21 = [.fin 3072, .fin 5120, .fin 2048]
+    ∧ renderQuantiles 0 qs r 21
+        = [(.fin 0, .exact (.fin 2048)), (.fin 0, .exact (.fin 2048)), (.fin 0, .exact (.fin 2048)),
+           (.fin 512, .near (.fin 3072)), (.fin 1024, .exact (.fin 5120)), (.fin 1024, .exact (.fin 5120))]
+    ∧ (renderQuantiles 0 qs r 50).map Prod.snd = List.replicate 6 .placeholder
+    ∧ setQuantiles [] = none := by decide
 
 -- only the count set / only the duration set / neither
 example : windowOf (some 5) none = (5, 20000000000) ∧ windowOf none (some 7) = (3, 7) ∧ windowOf none none = (3, 20000000000) := by
